@@ -106,6 +106,9 @@ type Explorer struct {
 	OnNew func(w *World, path []Op)
 	// OnNewList: further state-level oracles, each on its own fresh replay.
 	OnNewList []func(w *World, path []Op)
+	// NoShard: every worker explores the whole space (small spaces whose states
+	// are the base of a product that the driver shards itself); only shard 0 counts.
+	NoShard bool
 	// Collect: remember the shortest path to every distinct state in States.
 	Collect bool
 	States  [][]Op
@@ -128,13 +131,16 @@ func (e *Explorer) Run() {
 		for _, p := range frontier {
 			for _, op := range e.Alphabet {
 				// shard on the first two letters (depth-1 paths are replayed by every worker)
-				if depth == 2 || e.Depth == 1 {
+				if !e.NoShard && (depth == 2 || e.Depth == 1) {
 					idx++
 					if idx%c.NShards != c.Shard {
 						continue
 					}
 				}
 				e.quiet = depth == 1 && e.Depth > 1 && c.Shard != 0
+				if e.NoShard {
+					e.quiet = c.Shard != 0
+				}
 				if c.Expired() {
 					complete = false
 					break
@@ -208,7 +214,7 @@ func (e *Explorer) visit(path []Op, extend bool) (bool, bool) {
 	if len(path) > 0 {
 		c.Sample(map[string]interface{}{"cfg": e.Cfg, "history": path})
 	}
-	if e.Collect && !e.quiet {
+	if e.Collect && (!e.quiet || e.NoShard) {
 		e.States = append(e.States, path)
 	}
 	hooks := e.OnNewList
